@@ -12,7 +12,7 @@ from vp.memenv import Program, Sandbox, concrete_region
 KEYS = ["a", "b/x", "\u00e9:# "]  # plain, path-like, non-ASCII with the separators of qualified names and content keys
 STORES = ["fs", "fs+cache:1", "memory", "fs+cache:0.0005"]
 PROVENANCE = ["fresh", "disk", "cache"]
-STAGING = ["InMemoryPartition", "OnDiskPartition", "InMemoryPartition(defaultdict)"]
+STAGING = ["InMemoryPartition", "OnDiskPartition", "InMemoryPartition(defaultdict)", "OnDiskPartition(keys-reassigned)"]
 # the third: an in-memory partition whose results mapping is a collections.defaultdict - a mapping for which `key in d` and `d[key]`
 # disagree on absent keys (a parent-only key must still come from the parent, and reading must not invent entries)
 
@@ -48,6 +48,15 @@ SRC = (
     "        dd.update(items)\n"
     "        return InMemoryPartition(dd)\n"
     "    p = OnDiskPartition()\n"
+    "    if STAGING[0] == 'OnDiskPartition(keys-reassigned)' and items:\n"
+    "        # every key first holds the value the first key keeps; all other keys are then assigned their own values\n"
+    "        first = list(items)[0]\n"
+    "        for k in items:\n"
+    "            p[k] = items[first]\n"
+    "        for k, v in items.items():\n"
+    "            if k != first:\n"
+    "                p[k] = v\n"
+    "        return p\n"
     "    for k, v in items.items():\n"
     "        p[k] = v\n"
     "    return p\n"
@@ -227,10 +236,10 @@ def passthrough(m0: int, m1: int, pv0: int, tp: int, K: int, staging: int, store
     "C17.chains",
     covers=("chain-0", "chain-1", "parent-fresh", "parent-disk", "parent-cache", "own-key-wins", "parent-only-key", "ondisk-staging", "empty-level",
             "key-override"),
-    split={"store": [0, 1, 2], "staging": [0, 1, 2], "K": [0, 1]},
+    split={"store": [0, 1, 2], "staging": [0, 1, 2, 3], "K": [0, 1]},
     bounds="key alphabet {'a', 'b/x', 'é:# '}; merge chains of length K = 0..1 (thorough 2); every presence mask per level (8 each); parent provenance "
            "{computed inside the child = fresh in-memory object, read back from disk, served from the memory cache}; staging partition "
-           "{InMemoryPartition, OnDiskPartition, InMemoryPartition over a defaultdict}; values incl. None and a DataFrame; returned plainly or under a key override (KeyOverrideResult); stores {fs, "
+           "{InMemoryPartition, OnDiskPartition, InMemoryPartition over a defaultdict, OnDiskPartition whose keys are assigned twice (all first share one value)}; values incl. None and a DataFrame; returned plainly or under a key override (KeyOverrideResult); stores {fs, "
            "fs+cache, memory}",
     variables="choice: masks (3 bits per level), provenance per level, staging, store",
     budget_s={"quick": 170, "thorough": 900},
@@ -253,7 +262,7 @@ def chains(m0: int, m1: int, pv0: int, override: bool, K: int, staging: int, sto
                 cover("own-key-wins")
             if m0 & ~m1:
                 cover("parent-only-key")
-        if staging == 1:
+        if staging in (1, 3):
             cover("ondisk-staging")
         if m0 == 0 or (K >= 1 and m1 == 0):
             cover("empty-level")
